@@ -181,8 +181,14 @@ func (e *Engine) GenVCs(fn *ssa.Function, fc *FuncContract) (res *FuncResult) {
 			if id, ok := m.(*EIdent); ok && strings.HasPrefix(id.Name, "fam_") {
 				unsup("modifies fam_* is only allowed on trusted contracts")
 			}
-			v := x.evalSpec(&specScope{x: x, fr: fr, st: st, old: st}, m)
-			x.modRefs = append(x.modRefs, x.refsOf(v)...)
+			msc := &specScope{x: x, fr: fr, st: st, old: st}
+			v := x.evalSpec(msc, m)
+			// a frame entry reached through a nil pointer denotes nothing (it must not stand for an arbitrary
+			// existing object, which a field read at the nil reference would)
+			def := x.specDefined(msc, m)
+			for _, r := range x.refsOf(v) {
+				x.modRefs = append(x.modRefs, Ite(def, r, IntLit(0)))
+			}
 		}
 	}
 	outs := x.run(fr, st, fn.Blocks[0], nil, 0)
@@ -458,4 +464,34 @@ func writtenGlobals(pkg *ssa.Package) map[*ssa.Global]bool {
 		}
 	}
 	return out
+}
+
+// specDefined: every pointer dereferenced along the selector chain of e is non-nil
+func (x *Exec) specDefined(sc *specScope, e Expr) *Term {
+	switch n := e.(type) {
+	case *ESel:
+		if id, ok := n.X.(*EIdent); ok {
+			if _, ok := x.specPkgMember(sc, id.Name, n.Name); ok {
+				return True
+			}
+		}
+		d := x.specDefined(sc, n.X)
+		base := x.evalSpec0(sc, n.X, nil)
+		if _, isPtr := base.T.Underlying().(*types.Pointer); isPtr && len(base.L) == 1 && base.L[0] != nil {
+			return And(d, Not(Eq(base.L[0], IntLit(0))))
+		}
+		return d
+	case *EIndex:
+		return x.specDefined(sc, n.X)
+	case *ECall:
+		d := True
+		for _, a := range n.Args {
+			if _, isLit := a.(*ELit); isLit {
+				continue
+			}
+			d = And(d, x.specDefined(sc, a))
+		}
+		return d
+	}
+	return True
 }
